@@ -68,11 +68,11 @@ def _mutate_tree(x):
     import torch
     if isinstance(x, torch.Tensor):
         _mutate_tensor(x)
-    elif isinstance(x, list):
+    elif type(x) is list:
         for v in x:
             _mutate_tree(v)
         x.append("appended-after-return")
-    elif isinstance(x, dict):
+    elif type(x) in (dict, OrderedDict):
         ks = list(x.keys())
         for k in ks:
             _mutate_tree(x[k])
@@ -84,6 +84,10 @@ def _mutate_tree(x):
             x[("mut",)] = 1          # opaque object (dict with non-str keys): mutate the object itself
     elif isinstance(x, set):
         x.add("mut")
+    elif isinstance(x, list):            # opaque list subclass: mutate the object itself
+        x.append("mut")
+    elif isinstance(x, dict):            # opaque dict subclass (Counter, defaultdict, ...)
+        x["mut"] = 1
 
 
 def _canon_manifest(manifest) -> Any:
